@@ -84,6 +84,17 @@ check("C04", "exploration",
       "that has a finally clause are not generated.",
       "bounded exhaustive enumeration of programs x all branch-decision vectors, path-in-graph oracle", "DESIGN.md §2 C04")
 
+check("C07", "exploration",
+      "Complete product of call patterns: 17 callee kinds (direct, constructor, method, inherited method, method via self, callback "
+      "parameter, lambda callback, returned function, function stored in variable / field / list / dict, recursion, mutual recursion, "
+      "call chain, two call sites, calls in branch arms and loops) x 6 import forms (one file, from-import, module attribute, module "
+      "alias, from-import-as, package directory) x 4 caller positions (top level, function, method, nested function); each program is "
+      "executed by CPython under sys.setprofile and analysed by the real `run` pipeline; every project-internal call event "
+      "(caller, call line, callee), with methods identified by (file, def line), must be an edge on the computed call paths.",
+      "One concrete execution per (deterministic) program. Entry = unit initialisers. Quick omits method / nested caller positions for "
+      "the import forms other than one-file and from-import.",
+      "exhaustive enumeration of program shapes, dynamic ground truth (CPython call events) vs computed call paths", "DESIGN.md §2 C07")
+
 check("C08", "exploration",
       "(a) Every loop-free value program with <=3 (thorough 4) statement nodes over integer constants, copies, binary operations, "
       "fields f/g of two objects, aliasing, helpers called from several sites and opaque if / if-else (2041 programs quick), each an "
